@@ -33,6 +33,6 @@ LEVEL = ('proof',
  'of {deref, index, field, paren, #unwrap} over every root kind and every type with <= 2 type constructors plus seeded samples of deeper ones (thorough: every type with <= 4 constructors), '
  'plus seeded random targets using the remaining constructors, with plain / compound assignment and '
  '^mut / ^; verdict and help kind must equal the model (which version of the function is in the tree is detected by a '
- 'probe), and the verdict must satisfy the place semantics (an accepted read-only target or a rejected target that is writable in every reading is reported with its program). The conversion side: Props/C14Fit.lean proves about the transcription of can_fit_into (Model/TyRel.lean) that an implicit conversion between pointer towers never makes a level writable and never changes a level below the outermost pointer (fit_no_gain, fit_invariant_below_top, no_const_cast_hole); every pair of towers of height <= 3 (with slice levels) is converted by an annotated definition, an argument, an assignment and a return through the real front end and the verdict compared with the model and with the soundness rule.',
+ 'probe), and the verdict must satisfy the place semantics (an accepted read-only target or a rejected target that is writable in every reading is reported with its program). The conversion side: Props/C14Fit.lean proves about the transcription of can_fit_into (Model/TyRel.lean) that an implicit conversion between pointer towers never makes a level writable and never changes a level below the outermost pointer (fit_no_gain, fit_invariant_below_top, no_const_cast_hole; mfit_invariant_below_top and no_const_cast_hole_slice for towers that mix pointer and slice levels); every pair of towers of height <= 3 (with slice levels) is converted by an annotated definition, an argument, an assignment and a return through the real front end and the verdict compared with the model and with the soundness rule.',
  '§4 C14',
  'Lean 4 proof (structural induction over the path language) + differential correspondence via the in-process front end')
